@@ -31,6 +31,7 @@ from pde.trackers.interrupts import (  # noqa: E402
     ConstantInterrupts,
     FixedInterrupts,
     GeometricInterrupts,
+    InterruptsBase,
     LogarithmicInterrupts,
 )
 from pde.trackers.trackers import CallbackTracker, DataTracker  # noqa: E402
@@ -211,8 +212,9 @@ def time_specs(max_n=200, theta="any"):
         th = st.integers(0, 9).flatmap(lambda i: [whole, whole, whole, whole, whole, generic, generic, special,
                                                   special, near][i])
     return st.builds(
-        lambda dt, t0m, n, th, build: {"dt": dt, "t0m": t0m, "N": n, "theta": th, "build": build},
-        dt, t0m, n, th, st.sampled_from(["mult", "mult", "dec"]))
+        lambda dt, t0m, n, th, build, scalar: {"dt": dt, "t0m": t0m, "N": n, "theta": th, "build": build,
+                                               **({"scalar": True} if scalar and not t0m else {})},
+        dt, t0m, n, th, st.sampled_from(["mult", "mult", "dec"]), st.booleans())
 
 
 def times_of(tspec):
@@ -305,7 +307,9 @@ def build_interrupt(ispec, dt, t0):
         d = rho_float(ispec) * dt
         if ispec["ts"] is not None:
             return ConstantInterrupts(d, t_start=t0 + ts_float(ispec["ts"]) * dt)
-        return d if ispec["route"] == "num" else ConstantInterrupts(d)
+        if ispec["route"] == "num":
+            return int(d) if d.is_integer() else d  # plain number, as in `tracker(interrupts=2)`
+        return ConstantInterrupts(d)
     if kind == "fixed":
         pts = [t0 + x * dt for x in ispec["rel"]]
         pts = sorted(pts)
@@ -444,9 +448,13 @@ def _make_func(rec, nargs, ret):
 def build_trackers(tspecs, dt, t0):
     """-> (list of tracker objects, list of Recorders)"""
     objs, recs = [], []
+    prev_intr = None
     for i, ts in enumerate(tspecs):
         rec = Recorder(i, ts)
         intr = build_interrupt(ts["intr"], dt, t0)
+        if ts.get("share") and i > 0 and isinstance(prev_intr, InterruptsBase) and tspecs[i - 1]["intr"] == ts["intr"]:
+            intr = prev_intr  # the very same interrupt object handed to two trackers (documented: it is copied)
+        prev_intr = intr
         kind = ts["kind"]
         if kind == "data":
             tr = DataTracker(_make_func(rec, 2, True), interrupts=intr)
@@ -498,8 +506,10 @@ def run_sim(case, trackers, state=None):
     if state is None:
         state = build_state(case["state"])
     s = case["solver"]
+    # t_range may be given as a single number (= t_end, start at 0)
+    t_range = t1 if case["time"].get("scalar") and t0 == 0 else (t0, t1)
     try:
-        res, info = eq.solve(state, t_range=(t0, t1), dt=dt, solver=s["name"], backend=s["backend"],
+        res, info = eq.solve(state, t_range=t_range, dt=dt, solver=s["name"], backend=s["backend"],
                              tracker=trackers, ret_info=True, **solver_kwargs(s))
     except ConvergenceError as err:  # documented failure mode of the fixed-point schemes
         raise Rejected(f"ConvergenceError: {err}") from err
